@@ -418,11 +418,25 @@ def _payload_variants(ctx, ty_key):
 def pending_assign_blocks(body):
     """Blocks that assign Poll::Pending to the return place."""
     out = []
+    # the return place, and the locals whose value is handed to it whole (`let poll = helper(..); ..; poll`)
+    ret = {0}
+    grew = True
+    while grew:
+        grew = False
+        for bb in range(body.n):
+            if body.is_cleanup(bb):
+                continue
+            for s in body.stmts(bb):
+                if s["k"] == "assign" and s["place"]["l"] in ret and not s["place"]["p"] and s["rv"]["k"] == "use" \
+                        and s["rv"]["op"]["k"] in ("move", "copy") and not s["rv"]["op"]["place"]["p"] and s["rv"]["op"]["place"]["l"] not in ret \
+                        and s["rv"]["op"]["place"]["l"] > body.arg_count:
+                    ret.add(s["rv"]["op"]["place"]["l"])
+                    grew = True
     for bb in range(body.n):
         if body.is_cleanup(bb):
             continue
         for s in body.stmts(bb):
-            if s["k"] == "assign" and s["place"]["l"] == 0 and not s["place"]["p"] and s["rv"]["k"] == "aggregate" \
+            if s["k"] == "assign" and s["place"]["l"] in ret and not s["place"]["p"] and s["rv"]["k"] == "aggregate" \
                     and s["rv"].get("adt") == "core::task::Poll" and s["rv"].get("variant") == "Pending":
                 out.append(bb)
     return out
@@ -578,6 +592,15 @@ def r1_5(ctx, R):
         ok = False
         det = ""
         for mbb, mt, mfn in marks:
+            if R.is_mark_all(callee_body(ctx.facts, mfn)) and ctor:
+                # the list's own MARK-ALL primitive, applied to the list built here: every index below the length the
+                # constructor recorded (C03 R3.4: header.len is written once, from the constructor's capacity)
+                recv = strip_refs(fl.operand_expr(mt["args"][0]))
+                if any(recv == strip_refs(fl.place_expr(ct["dest"])) or any(c[3] == cbb for c in [recv] + expr_calls(recv) if c[0] == "call")
+                       for cbb, ct, cfn in ctor):
+                    ok = True
+                    det = "MARK-ALL on the waker list built here (0..header.len)"
+                continue
             idx = strip_refs(fl.operand_expr(mt["args"][-1]))
             # idx must be the Some payload of Range::next over a range 0..cap
             calls = expr_calls(idx)
@@ -929,6 +952,31 @@ def r1_7(ctx, R):
                         break
                     elif f[0] == "P":
                         break
+                if not progressed and e[1] == "None":
+                    # the order of the events alone does not say where the cursor ends up (`cursor = 0` BEFORE the exhausted
+                    # last group is appended again moves it off that group just as well): walk the path over every small
+                    # (number of groups, cursor) start state -- the poll that follows, or the state the call returns in, must
+                    # not have the cursor on the exhausted group again
+                    from groups import group_walk
+                    gw = group_walk(ctx, b, ctx.flow(b), path, cur_field)
+                    if gw is not None:
+                        progressed = True
+                        for w in gw:
+                            ps = w["polls"]
+                            k_ = [k for k, (j_, g_) in enumerate(ps) if j_ == e[2]]
+                            if not k_:
+                                progressed = False
+                                break
+                            g_ = ps[k_[0]][1]
+                            if k_[0] + 1 < len(ps):
+                                if ps[k_[0] + 1][1] == g_:
+                                    progressed = False
+                                    break
+                            else:
+                                lst_, c_, _ = w["end"]
+                                if f_ret_pending(ev) and g_ in lst_ and len(lst_) > 1 and lst_[c_ if c_ < len(lst_) else 0] == g_:
+                                    progressed = False
+                                    break
                 if not progressed:
                     bad[e[1]].append(path)
         # the exhausted group is put back only when nothing else is left or when it was the LAST group (cursor == len after
@@ -978,6 +1026,10 @@ def r1_7(ctx, R):
                    "after an inner %s the cursor is advanced/reset%s before the next inner poll; %d events, %d without progress" % (
                        outcome, ", or the exhausted group removed (and, if it is put back, the cursor moved off it), or Ready(None) returned" if outcome == "None" else "", seen[outcome], len(bad[outcome])),
                    path=bad[outcome][0] if bad[outcome] else None)
+
+
+def f_ret_pending(ev):
+    return bool(ev) and ev[-1][0] == "RET" and ev[-1][1] == "Pending"
 
 
 def poll_bodies(ctx):
